@@ -336,7 +336,14 @@ fn verify_revealed_attribute_values(
                     attr_referent,
                 )
             })?;
-        if attr_infos.values.len() != attr_names.len() {
+        // the group must show exactly the requested names (a name listed twice counts once)
+        let requested_names: HashSet<&String> = attr_names.iter().collect();
+        if attr_infos.values.len() != requested_names.len()
+            || attr_infos
+                .values
+                .keys()
+                .any(|name| !requested_names.contains(name))
+        {
             error!("Proof Revealed Attr Group does not match Proof Request Attribute Group, proof request attrs: {:?}, referent: {:?}, attr_infos: {:?}", pres_req.requested_attributes, attr_referent, attr_infos);
             return Err(err_msg!(
                 "Proof Revealed Attr Group does not match Proof Request Attribute Group",
